@@ -296,6 +296,15 @@ func c15Gen(r *Rng, tier string, emit func(Case)) {
 			E(true, "meta.text "+t.name+" "+hx(c15GenBytes(r, n)), "text", lenTag(n))
 		}
 	}
+	// texts that a "clean-up" would alter (byte order marks, blanks, NULs, invalid UTF-8, format verbs ...), every kind
+	for _, t := range c15Texts {
+		for _, sp := range specialTextVariants() {
+			E(true, "meta.text "+t.name+" "+hx(sp), "text", "special-text")
+		}
+	}
+	for _, sp := range specialTextVariants() {
+		E(true, "meta.seqdata "+hx(sp), "seqdata", "special-text")
+	}
 	nr := 400
 	if thorough {
 		nr = 6000
